@@ -67,30 +67,34 @@ pub fn gen_mod(rng: &mut Rng, _profile: &str, size: usize) -> ModCase {
     let mut comms: Vec<Vec<u32>> = vec![vec![]; k];
     for n in &g.nodes { let i = rng.below(k as u64) as usize; comms[i].push(*n); }
     if rng.chance(70) { comms.retain(|c| !c.is_empty()); }
-    // perturbations: families that are not partitions
-    match rng.below(100) {
-        0..=59 => {}
-        60..=69 => { // overlap
-            if let Some(x) = g.nodes.first() { let i = rng.below(comms.len().max(1) as u64) as usize; if !comms.is_empty() && !comms[i].contains(x) { comms[i].push(*x); } }
-        }
-        70..=77 => { // omission
-            for c in comms.iter_mut() { if !c.is_empty() { c.pop(); break; } }
-        }
-        78..=85 => { // overlap and omission cancel in the count
-            let donors: Vec<usize> = (0..comms.len()).filter(|i| comms[*i].len() >= 1).collect();
-            if donors.len() >= 2 {
-                let x = comms[donors[0]].pop().unwrap();
-                let _ = x;
-                let y = comms[donors[1]][0];
-                if !comms[donors[0]].contains(&y) { comms[donors[0]].push(y); }
+    // perturbations: families that are not partitions - one to four independent faults, so that faults whose effects
+    // cancel in a count (overlap + omission, foreign name + omission + overlap, ...) occur together
+    let nfaults = match rng.below(100) { 0..=54 => 0, 55..=74 => 1, 75..=86 => 2, 87..=95 => 3, _ => 4 };
+    let mut foreign = 77u32;
+    for _ in 0..nfaults {
+        if comms.is_empty() { comms.push(vec![]); }
+        let nonempty: Vec<usize> = (0..comms.len()).filter(|i| !comms[*i].is_empty()).collect();
+        match rng.below(5) {
+            0 => { // overlap: a member of one community also named by another one
+                if comms.len() < 2 { comms.push(vec![]); }
+                if let Some(&d) = nonempty.first() {
+                    let x = *rng.pick(&comms[d]);
+                    let others: Vec<usize> = (0..comms.len()).filter(|i| *i != d).collect();
+                    let t = *rng.pick(&others);
+                    if !comms[t].contains(&x) { comms[t].push(x); }
+                }
             }
-        }
-        86..=92 => { // foreign node
-            if comms.is_empty() { comms.push(vec![]); }
-            comms[0].push(77);
-        }
-        _ => { // foreign node replacing a real one
-            for c in comms.iter_mut() { if !c.is_empty() { c.pop(); c.push(78); break; } }
+            1 => { // omission
+                if !nonempty.is_empty() { let d = *rng.pick(&nonempty); let k = rng.below(comms[d].len() as u64) as usize; comms[d].remove(k); }
+            }
+            2 => { // foreign name added
+                let t = rng.below(comms.len() as u64) as usize;
+                comms[t].push(foreign); foreign += 1;
+            }
+            3 => { // foreign name replacing a real one
+                if !nonempty.is_empty() { let d = *rng.pick(&nonempty); let k = rng.below(comms[d].len() as u64) as usize; comms[d][k] = foreign; foreign += 1; }
+            }
+            _ => { comms.push(vec![]); } // an empty community
         }
     }
     let res = *rng.pick(&[(1i64, 1u32), (1, 1), (1, 2), (3, 2), (2, 1), (1, 4), (5, 4)]);
